@@ -10,6 +10,35 @@ pub mod rand {
         fn fill(&self, dest: &mut [u8]) -> Result<(), Unspecified>;
     }
 
+    /// `ring::rand::generate`: a value of a fixed-size byte array type filled from `rng`
+    pub fn generate<T: RandomlyConstructable>(rng: &dyn SecureRandom) -> Result<Random<T>, Unspecified> {
+        let mut v = T::zero();
+        rng.fill(v.as_mut_bytes())?;
+        Ok(Random(v))
+    }
+
+    pub struct Random<T: RandomlyConstructable>(T);
+
+    impl<T: RandomlyConstructable> Random<T> {
+        pub fn expose(self) -> T {
+            self.0
+        }
+    }
+
+    pub trait RandomlyConstructable: Sized {
+        fn zero() -> Self;
+        fn as_mut_bytes(&mut self) -> &mut [u8];
+    }
+
+    impl<const N: usize> RandomlyConstructable for [u8; N] {
+        fn zero() -> Self {
+            [0u8; N]
+        }
+        fn as_mut_bytes(&mut self) -> &mut [u8] {
+            &mut self[..]
+        }
+    }
+
     #[derive(Clone, Debug, Default)]
     pub struct SystemRandom;
 
